@@ -566,8 +566,12 @@ def sync_aware_insertion(state: VRPState, rng: Random) -> VRPState:
             state.unassigned.remove(cid)
             state.sync_assignments[cid] = {v for v, _ in best_insertions}
 
-    state.unassigned = set(single)
+    # Multi-vehicle customers that found no synchronized insertion stay unassigned; keep them
+    # away from the single-route repair below and put them back afterwards.
+    still_unassigned = {c for c in multi if c in state.unassigned}
+    state.unassigned -= still_unassigned
     state = regret_insertion(state, rng)
+    state.unassigned |= still_unassigned
 
     state.update_arrival_times()
     return state
